@@ -11,13 +11,13 @@ fn len(disconnect: &Disconnect, properties: &Option<DisconnectProperties>) -> us
         return 2; // Packet type + 0x00
     }
 
-    let mut length = 0;
+    let mut length = 1; // Disconnect Reason Code
     if let Some(properties) = &properties {
-        length += 1; // Disconnect Reason Code
         let properties_len = properties::len(properties);
         let properties_len_len = len_len(properties_len);
         length += properties_len_len + properties_len;
     } else {
+        // just 1 byte representing 0 len properties, which write() emits
         length += 1;
     }
 
@@ -69,7 +69,9 @@ pub fn write(
 
     let length = len(disconnect, properties);
 
-    if length == 2 {
+    // Reason code and properties can be omitted only for a normal disconnection
+    // without properties (a reason code with empty properties also has length 2)
+    if disconnect.reason_code == DisconnectReasonCode::NormalDisconnection && properties.is_none() {
         buffer.put_u8(0x00);
         return Ok(length);
     }
